@@ -261,12 +261,18 @@ func (h *Hist) Delete(t *model.Table) *proto.Stmt {
 func (h *Hist) Next() *proto.Stmt {
 	for tries := 0; ; tries++ {
 		var s *proto.Stmt
-		nt := len(h.DB.Tables)
+		var usable []*model.Table
+		for _, t := range h.DB.Tables {
+			if Usable(t) {
+				usable = append(usable, t)
+			}
+		}
+		nt := len(usable)
 		switch {
-		case nt == 0 || (nt < h.MaxTables && h.R.Chance(1, 12)):
+		case nt == 0 || (len(h.DB.Tables) < h.MaxTables && h.R.Chance(1, 12)):
 			s = h.CreateTable()
 		default:
-			t := h.DB.Tables[h.R.Intn(nt)]
+			t := usable[h.R.Intn(nt)]
 			switch x := h.R.Intn(20); {
 			case x < 10:
 				rows := h.R.Range(1, 4)
@@ -302,4 +308,29 @@ func (h *Hist) Burst(t *model.Table, rows int) *proto.Stmt {
 		panic("burst failed in model")
 	}
 	return s
+}
+
+// HistFrom continues generating from an existing model state (which it
+// clones): used for statements issued after a crash and recovery.
+func HistFrom(r *core.Rand, db *model.DB, textOnly bool) *Hist {
+	h := &Hist{R: r, DB: db.Clone(), TextOnly: textOnly, MaxTables: len(db.Tables) + 1, MaxCols: 6, kSeq: map[string]int64{}, Prefix: "t"}
+	h.tabSeq = len(db.Tables) + 100
+	for _, t := range h.DB.Tables {
+		var mx int64 = -1
+		if t.ColIdx("k") == 0 {
+			for _, row := range t.Rows {
+				if row.Vals[0].K == 'i' && row.Vals[0].I > mx {
+					mx = row.Vals[0].I
+				}
+			}
+		}
+		h.kSeq[t.Name] = mx + 1000 // never collides with keys of deleted rows
+	}
+	return h
+}
+
+// Usable reports whether the generator's WHERE/row builders can work on t
+// (tables made by CreateTable: k and g first).
+func Usable(t *model.Table) bool {
+	return len(t.Cols) >= 2 && t.Cols[0].Name == "k" && t.Cols[1].Name == "g"
 }
